@@ -8,6 +8,8 @@ import (
 	"os/exec"
 	"path/filepath"
 	"regexp"
+	"runtime"
+	"runtime/debug"
 	"sort"
 	"strconv"
 	"strings"
@@ -351,6 +353,14 @@ func cmdCheck(args []string) {
 		wallS = v
 	}
 	wallDeadline := t0.Add(time.Duration(wallS) * time.Second)
+	// memory guard: the collector works harder above the soft limit, and no new case is started while the
+	// heap is above the hard mark (such cases are reported as not explored, like the wall budget)
+	debug.SetMemoryLimit(36 << 30)
+	memHigh := func() bool {
+		var ms runtime.MemStats
+		runtime.ReadMemStats(&ms)
+		return ms.HeapAlloc > 40<<30
+	}
 	var stopFlag atomic.Bool
 	var wg sync.WaitGroup
 	ch := make(chan *job)
@@ -427,6 +437,8 @@ func cmdCheck(args []string) {
 						j.res = HarnessResult{Harness: h.Func, Verdict: "SKIPPED"}
 					} else if time.Now().After(wallDeadline) {
 						j.res = HarnessResult{Harness: h.Func, Verdict: "NOT-EXPLORED", Events: []Event{{"budget", "case not started: wall budget of the check exhausted"}}}
+					} else if memHigh() {
+						j.res = HarnessResult{Harness: h.Func, Verdict: "NOT-EXPLORED", Events: []Event{{"budget", "case not started: memory budget of the check exhausted"}}}
 					} else {
 						j.res = runHarness(prog, fn, cfg, j.prefix, *solver, "")
 					}
